@@ -112,6 +112,22 @@ func checkTaintedAccesses(c *eng.Ctx, t *eng.Taint, skipPkg func(string) bool) i
 				return
 			}
 			if !t.Val[base] {
+				// the other direction: trusted storage indexed BY an untrusted value (a type byte into a name table)
+				var idx ssa.Value
+				switch x := in.(type) {
+				case *ssa.IndexAddr:
+					idx = x.Index
+				case *ssa.Index:
+					idx = x.Index
+				}
+				if idx == nil || !(t.Val[idx] || t.Val[eng.Strip(idx)] || taintedThroughConvert(t, idx) || untrustedScalar(c, t, idx, 0)) {
+					return
+				}
+				n++
+				ok := untrustedIndexGuarded(fn, in, idx, base)
+				c.Check(ok, "index by an untrusted value into "+eng.Describe(base)+" in "+k, c.Pos(in),
+					"guarded by index < len(table) (or the table covers the index type's range)",
+					"a table is indexed by a value taken from untrusted bytes without a dominating guard index < len(table): a crafted type / code byte panics the process (index out of range)")
 				return
 			}
 			isAcc, ok, desc := b.CheckAccess(in)
@@ -135,6 +151,8 @@ func checkTaintedAccesses(c *eng.Ctx, t *eng.Taint, skipPkg func(string) bool) i
 
 func runC14(c *eng.Ctx) {
 	p := c.P
+	c.Rule("R14.5", "K1")
+	ruleEveryBatchedMessageWasValidated(c)
 
 	// ---- R14.1 bounds on bytes that arrive from NATS
 	c.Rule("R14.1", "K9")
@@ -1181,4 +1199,142 @@ func panicCause(v ssa.Value, depth int) string {
 		}
 	}
 	return ""
+}
+
+// taintedThroughConvert: v is a conversion (or chain of conversions) of a tainted value.
+func taintedThroughConvert(t *eng.Taint, v ssa.Value) bool {
+	for i := 0; i < 4; i++ {
+		switch x := v.(type) {
+		case *ssa.Convert:
+			v = x.X
+		case *ssa.ChangeType:
+			v = x.X
+		default:
+			return t.Val[v]
+		}
+		if t.Val[v] {
+			return true
+		}
+	}
+	return false
+}
+
+// untrustedIndexGuarded: the access lies behind idx < len(base) for this very index value (seen through conversions), or the
+// table is an array at least as long as the index type's range.
+func untrustedIndexGuarded(fn *ssa.Function, in ssa.Instruction, idx, base ssa.Value) bool {
+	same := func(v ssa.Value) bool {
+		a, b := v, idx
+		for i := 0; i < 4; i++ {
+			if a == b {
+				return true
+			}
+			if c, ok := a.(*ssa.Convert); ok {
+				a = c.X
+				continue
+			}
+			if c, ok := b.(*ssa.Convert); ok {
+				b = c.X
+				continue
+			}
+			break
+		}
+		return a == b
+	}
+	bt := base.Type().Underlying()
+	if pt, ok := bt.(*types.Pointer); ok {
+		bt = pt.Elem().Underlying()
+	}
+	if at, ok := bt.(*types.Array); ok {
+		if basic, ok := idx.Type().Underlying().(*types.Basic); ok && basic.Kind() == types.Uint8 && at.Len() >= 256 {
+			return true
+		}
+		edges := eng.CmpEdges(fn, same, eng.IntConst(at.Len()), eng.LT)
+		g, _ := eng.GuardedBy(fn, in, edges)
+		return g && len(edges) > 0
+	}
+	isBase := func(v ssa.Value) bool { return v == base || (eng.Strip(v) == eng.Strip(base)) }
+	edges := eng.CmpEdges(fn, same, eng.Len(isBase), eng.LT)
+	g, _ := eng.GuardedBy(fn, in, edges)
+	return g && len(edges) > 0
+}
+
+// untrustedScalar: v is a number read out of untrusted bytes — an element of a tainted slice, a fixed-width read of one —
+// possibly converted, masked or shifted, merged by a phi, or handed in as a parameter by a caller that read it that way.
+func untrustedScalar(c *eng.Ctx, t *eng.Taint, v ssa.Value, depth int) bool {
+	if depth > 5 {
+		return false
+	}
+	switch x := v.(type) {
+	case *ssa.Convert:
+		return untrustedScalar(c, t, x.X, depth+1)
+	case *ssa.ChangeType:
+		return untrustedScalar(c, t, x.X, depth+1)
+	case *ssa.UnOp:
+		if x.Op == token.MUL {
+			if ia, ok := x.X.(*ssa.IndexAddr); ok {
+				return t.Val[ia.X]
+			}
+			if al, ok := x.X.(*ssa.Alloc); ok {
+				// a local that was assigned such a value
+				if refs := al.Referrers(); refs != nil {
+					for _, r := range *refs {
+						if st, isSt := r.(*ssa.Store); isSt && st.Addr == al && untrustedScalar(c, t, st.Val, depth+1) {
+							return true
+						}
+					}
+				}
+			}
+		}
+		return false
+	case *ssa.Index:
+		return t.Val[x.X]
+	case *ssa.BinOp:
+		switch x.Op {
+		case token.AND, token.SHR, token.SHL, token.OR, token.ADD, token.SUB:
+			return untrustedScalar(c, t, x.X, depth+1) || untrustedScalar(c, t, x.Y, depth+1)
+		}
+		return false
+	case *ssa.Phi:
+		for _, e := range x.Edges {
+			if untrustedScalar(c, t, e, depth+1) {
+				return true
+			}
+		}
+		return false
+	case *ssa.Call:
+		ref := eng.CalleeRef(&x.Call)
+		if strings.HasPrefix(ref, "encoding/binary.") && len(x.Call.Args) > 0 {
+			return t.Val[x.Call.Args[len(x.Call.Args)-1]]
+		}
+		return false
+	case *ssa.Parameter:
+		fn := x.Parent()
+		idx := -1
+		for i, p := range fn.Params {
+			if p == x {
+				idx = i
+			}
+		}
+		if idx < 0 {
+			return false
+		}
+		for caller := range t.Funcs() {
+			found := false
+			eng.Instrs(caller, func(in ssa.Instruction) {
+				ci, ok := in.(ssa.CallInstruction)
+				if !ok || ci.Common().StaticCallee() != fn {
+					return
+				}
+				args := ci.Common().Args
+				if idx < len(args) && untrustedScalar(c, t, args[idx], depth+1) {
+					found = true
+				}
+			})
+			if found {
+				return true
+			}
+		}
+		return false
+	}
+	return false
 }
